@@ -187,6 +187,78 @@ def _(c):
     c.ensure("mat6", c.all_eq(ct._mat6, P6_))
 
 
+@contract("C16", "copy", funcs=[f"{CWC}.copy", f"{CWC}.__init__"])
+def _(c):
+    """the copy every Orbit.copy() / propagated state carries is a propagator of the same class about the same target (sma) in the very same Hill frame (hence the
+    same orientation), whichever Hill frame was registered last"""
+    if not c.symbolic:
+        return
+    sma = c.real("sma", lo=0)
+    orient = c.choice("orient", ["QSW", "TNW"])
+    w = c.world(stubs={f"{CW}:get_frame": lambda name: _frame(w, "TNW" if orient == "QSW" else "QSW")})
+    frame = _frame(w, orient)
+    cw = w.obj(CWC, sma=sma, frame=frame)
+    cp = cw.copy()
+    c.ensure("class", cp._pv_cls is cw._pv_cls if hasattr(cp, "_pv_cls") else type(cp) is type(cw))
+    c.ensure("sma", cp.sma == sma)
+    c.ensure("frame", cp.frame is frame)
+    c.ensure("orientation", cp.frame.orientation == orient)
+    c.ensure("distinct", cp is not cw)
+
+
+def _grid_orient(tier, rng):
+    """which Hill frame is created last {QSW, TNW} x n of {LEO, GEO} x (t1, t2) in 4 pairs of either sign x 2 seeded states"""
+    for last in (0, 1):
+        for sma in (7.0e6, 4.2164e7):
+            for t1, t2 in ((1234.0, 2345.0), (-800.0, 3000.0), (5000.0, -1200.0), (-400.0, -900.0)):
+                for seed in range(2 if tier != "quick" else 1):
+                    yield {"last": last, "sma": sma, "t1": t1, "t2": t2, "seed": seed}
+
+
+@contract("C16", "native.orientations", funcs=[f"{CWC}.propagate", f"{CWC}.copy", "beyond.orbits.orbit:Orbit.propagate"], grid=_grid_orient, level="bounded")
+def _(c):
+    """bounded, through the public Orbit.propagate with both orientations alive in the same process: t1 then t2 from the propagated result equals t1+t2, propagating
+    back gives the initial state, the same holds from a copy of the orbit, and the TNW results are the fixed permutation of the QSW ones"""
+    from beyond.dates import Date, timedelta
+    from beyond.orbits import Orbit
+    from beyond.frames.frames import HillFrame
+    import beyond.frames.frames as fr
+    from beyond.propagators.cw import ClohessyWiltshire
+    last = c.choice("last", ["QSW", "TNW"])
+    sma, t1, t2 = c.real("sma"), c.real("t1"), c.real("t2")
+    rng = np.random.default_rng(160 + c.integer("seed"))
+    rel = rng.normal(size=6) * np.array([300.0, 2500.0, 100.0, 0.1, 0.3, 0.05])
+    saved = fr.dynamic.get("Hill")
+    try:
+        names = ["TNW", "QSW"] if last == "QSW" else ["QSW", "TNW"]
+        frames = {k: HillFrame(orientation=k) for k in names}
+        d0 = Date(2020, 5, 24)
+        T1, T2 = timedelta(seconds=t1), timedelta(seconds=t2)
+        res = {}
+        for k, frame in frames.items():
+            p = ClohessyWiltshire(sma, frame=frame)
+            M = P6.astype(float) if k == "TNW" else np.identity(6)
+            orb = Orbit(M @ rel, d0, "cartesian", frame, p)
+            direct = np.asarray(orb.propagate(T1 + T2), dtype=float)
+            step = orb.propagate(T1)
+            two = np.asarray(step.propagate(T2), dtype=float)
+            back = np.asarray(step.propagate(-T1), dtype=float)
+            cp = orb.copy()
+            viacopy = np.asarray(cp.propagate(T1 + T2), dtype=float)
+            sc = max(1.0, float(np.abs(direct).max()))
+            c.ensure(f"{k}.compose", c.all_eq(two, direct, scale=sc, rtol=1e-9, atol=1e-6))
+            c.ensure(f"{k}.inverse", c.all_eq(back, M @ rel, scale=sc, rtol=1e-9, atol=1e-6))
+            c.ensure(f"{k}.copy", c.all_eq(viacopy, direct, scale=sc, rtol=1e-12, atol=1e-9))
+            c.ensure(f"{k}.propagator_frame", step.propagator.frame is frame and cp.propagator.frame is frame)
+            res[k] = (direct, two)
+        sc = max(1.0, float(np.abs(res["QSW"][0]).max()))
+        c.ensure("permutation.direct", c.all_eq(res["TNW"][0], P6.astype(float) @ res["QSW"][0], scale=sc, rtol=1e-9, atol=1e-6))
+        c.ensure("permutation.two_steps", c.all_eq(res["TNW"][1], P6.astype(float) @ res["QSW"][1], scale=sc, rtol=1e-9, atol=1e-6))
+    finally:
+        if saved is not None:
+            fr.dynamic["Hill"] = saved
+
+
 # ---------------------------------------------------------------------------------------------
 # maneuver sequencing in propagate(): callee `_propagate` by contract (pure function of its
 # arguments, result dated at the requested date); ImpulsiveMan.dv / ContinuousMan.accel natively.
